@@ -114,3 +114,14 @@ def suites(tier, seed):
                   rule="one content (delivery / get answer / return) of 4095, 4096, 4097, 65535, 65536, 131064, 131065, 2^20-1, 2^20, 2^20+1 bytes (thorough: also 2^20+131064, 2^21+3) cut into frames of 64-128 KiB (bodies above 1 MiB: a first frame of exactly / about 1 MiB, then smaller ones), followed by a second small delivery: delivered once, intact, and the next message after it too"),
             Suite("sessions", "machine", lambda: gen(tier, seed), monitor=monitor, nontrivial=nontrivial, canon=mg.canon_nondet, candidate_ok=mg.candidate_ok,
                   rule="random sessions: 2-6 channels x consumers; deliveries, gets and returns with bodies 0..300 B cut into body frames by every partition style (one / two / single bytes / random / with empty frames), other channels' frames and heartbeats interleaved inside a content, frames fed directly or through the stream with random read cuts and would-block points; queues drained at the end")]
+
+
+# --- suites of neighbouring properties that also decide this one (cross-listed after wave 6) ---------
+_suites_before_wave6 = suites
+
+
+def suites(tier, seed):
+    def borrow(mod, names):
+        m = __import__("props." + mod, fromlist=["x"])
+        return [s_ for s_ in m.suites(tier, seed) if s_.name in names]
+    return [s_ for s_ in borrow("c17", ("heartbeat-e2e",))] + _suites_before_wave6(tier, seed)
